@@ -16,7 +16,9 @@ CONSTANTS Mode,          \* "mc" | "gen"
           Compact, Layers, EcPct,      \* symbol (gen): 1/0, number of layers, requested percentage of check words
           MaxSegs, EmitMax,
           StartSet, Strides, RunNs, ShiftKs, BinStarts, BinStrides, BinNs,
-          NFaults
+          NFaults,
+          UseForced      \* gen: the script is given (forced.ndjson: one record [items]) instead of being drawn at random
+Forced == IF UseForced THEN ndJsonDeserialize("forced.ndjson")[1].items ELSE <<>>
 VARIABLES mode, items, raw, pend, faults, phase, nd
 vars == <<mode, items, raw, pend, faults, phase, nd>>
 
@@ -39,7 +41,10 @@ Kinds == {"run", "latch", "shift", "bin"}
 CanGrow == Len(items) < MaxSegs /\ raw < MinRaw /\ \E k \in Kinds : Options(k) # {}
 
 Init == mode = U /\ items = <<>> /\ raw = 0 /\ pend = "" /\ faults = <<>> /\ phase = "build" /\ nd = 0
-Choose == /\ phase = "build" /\ pend = "" /\ CanGrow
+Force == /\ Mode = "gen" /\ UseForced /\ phase = "build" /\ items = <<>> /\ pend = ""
+         /\ \E sc \in {Script(Forced)} : sc.ok /\ items' = Forced /\ raw' = Len(sc.bits) /\ mode' = sc.mode
+         /\ phase' = "forced" /\ UNCHANGED <<pend, faults, nd>>
+Choose == /\ phase = "build" /\ pend = "" /\ CanGrow /\ ~UseForced
           /\ pend' \in {k \in Kinds : Options(k) # {}}
           /\ UNCHANGED <<mode, items, raw, faults, phase, nd>>
 Grow == /\ phase = "build" /\ pend # ""
@@ -47,7 +52,7 @@ Grow == /\ phase = "build" /\ pend # ""
              /\ items' = Append(items, s) /\ raw' = raw + SegLen(mode, s) /\ mode' = SegMode(mode, s)
         /\ pend' = "" /\ UNCHANGED <<faults, phase, nd>>
 \* gen: the script is complete; fix the number of data codewords
-Finish == /\ Mode = "gen" /\ phase = "build" /\ pend = "" /\ ~CanGrow /\ items # <<>>
+Finish == /\ Mode = "gen" /\ pend = "" /\ items # <<>> /\ ((phase = "build" /\ ~CanGrow /\ ~UseForced) \/ phase = "forced")
           /\ nd' = Len(Stuff(Script(items).bits, Ws))
           /\ phase' = "fault" /\ UNCHANGED <<mode, items, raw, pend, faults>>
 Cap == Capacity(Ncw, nd)
@@ -81,7 +86,7 @@ EmitScript == /\ Mode = "mc" /\ phase = "build" /\ pend = "" /\ items # <<>> /\ 
               /\ \E sc \in {Script(items)} :
                  PrintT(<<"GEN", ToJson([items |-> items, text |-> sc.text, hl |-> Chunks(sc.bits), nhl |-> Len(sc.bits)])>>)
               /\ phase' = "done" /\ UNCHANGED <<mode, items, raw, pend, faults, nd>>
-Next == Choose \/ Grow \/ Finish \/ Fault \/ EmitSym \/ EmitScript
+Next == Force \/ Choose \/ Grow \/ Finish \/ Fault \/ EmitSym \/ EmitScript
 Spec == Init /\ [][Next]_vars
 
 (* ---- laws of the message layer, checked in every reachable state whose script is closed *)
